@@ -548,9 +548,9 @@ End Wrap.
 Definition respell (d : pdirs) : pdirs :=
   match pd_common_labels d with
   | [] => d
-  | cl => mkPDirs (pd_ns d) (pd_prefix d) (pd_suffix d)
-                  (pd_labels d ++ [Labels.mkLD cl true false []]) []
-                  (pd_common_annos d) (pd_cmgens d) (pd_secgens d)
+  | cl => mkPDirsG (pd_ns d) (pd_prefix d) (pd_suffix d)
+                   (pd_labels d ++ [Labels.mkLD cl true false []]) []
+                   (pd_common_annos d) (pd_cmgens d) (pd_secgens d) (pd_genopts d)
   end.
 
 (* rewrite the layers selected by [which] (by directory name), anywhere in the tree *)
@@ -661,11 +661,11 @@ Section Respell.
     destruct (pd_common_labels d) as [|cl0 clt] eqn:E; unfold respell; rewrite E; [reflexivity|].
     unfold run_generators. generalize gen_generator_order. intros ks. revert m.
     induction ks as [|k t IH]; intros m; [reflexivity|].
-    cbn [run_generator_kinds pd_cmgens pd_secgens].
+    cbn [run_generator_kinds pd_cmgens pd_secgens pd_genopts].
     destruct (String.eqb k "ConfigMapGenerator").
-    - destruct (run_gens nonstr false (pd_cmgens d) m); cbn [bind]; auto.
+    - destruct (run_gens nonstr (pd_genopts d) false (pd_cmgens d) m); cbn [bind]; auto.
     - destruct (String.eqb k "SecretGenerator").
-      + destruct (run_gens nonstr true (pd_secgens d) m); cbn [bind]; auto.
+      + destruct (run_gens nonstr (pd_genopts d) true (pd_secgens d) m); cbn [bind]; auto.
       + cbn [bind]. auto.
   Qed.
 
@@ -673,7 +673,7 @@ Section Respell.
   Proof.
     destruct (pd_common_labels d) as [|cl0 clt] eqn:E; unfold respell; rewrite E; [reflexivity|].
     destruct ents; [|reflexivity]. unfold is_empty_kust, dirs_empty.
-    cbn [pd_ns pd_prefix pd_suffix pd_labels pd_common_labels pd_common_annos pd_cmgens pd_secgens].
+    cbn [pd_ns pd_prefix pd_suffix pd_labels pd_common_labels pd_common_annos pd_cmgens pd_secgens pd_genopts].
     rewrite E. destruct (pd_labels d); cbn [app]; rewrite ?andb_false_r; reflexivity.
   Qed.
 
